@@ -43,6 +43,10 @@ def collect(results, prop=PROP):
     for r in results:
         if r.get("status") == "violation":
             key = common.base_pid(r["job"]) + "|" + str(r.get("kind", "value"))
+            if r.get("kind") == "silent_out_of_bounds_index":
+                # one defect per indexing primitive whose JAX clamp/fill semantics the lowering drops
+                idx = sorted(p for p in (r.get("prims") or []) if p in ("dynamic_slice", "dynamic_update_slice", "gather", "scatter", "scatter-add", "scatter_add"))
+                key = "oob_index|" + "+".join(idx)
             w = r.get("witness") or {}
             what = w.get("why") or w.get("what") or r.get("reason") or ""
             violations.append({"key": key, "what": f"{what}; inputs={str(w.get('inputs'))[:120]} jax={str(w.get('jax'))[:80]} ort={str(w.get('ort', w.get('ort_error')))[:80]}", "payload": {"job": r["job"], "witness": w, "stats": r.get("stats")}})
